@@ -160,3 +160,14 @@ for p in list(NOT_APPLICABLE):
         del NOT_APPLICABLE[p]
 for e in ENGINES:
     e['serves_properties'] = sorted(CHECKS)
+
+_c('C07', 'model_checking',
+   'timed stateless schedule search with a virtual clock and a reactive client automaton, on the real servers',
+   'Grid of (interval, timeout, grace) settings incl. fractional and equal values x polling / upgraded (thorough: WebSocket-only) x PONG-delay sequences over {0, timeout-1/8, timeout, timeout+1/8} ending in silence x mute/vanishing peer x monitoring on/off x an application send placed on the 1/8 s lattice x both servers; every same-instant ordering of environment actions and schedules with up to one deviation (environment action ahead of a same-instant library timer, preemption). Checked: PING instants = open+interval and PONG+interval exactly; a punctual peer is never dropped before the deadline of the first PING it leaves unanswered; a silent peer gets exactly one timeout-class disconnect within last PONG + interval + 3 x timeout with monitoring on, by the poll timeout when it keeps polling with monitoring off, and at the first send after the deadline; no poll is held longer than interval + timeout.',
+   'Timed-automaton idealisation (zero-time computation, lattice instants); at and beyond the exact timeout boundary only safety clauses are judged.',
+   'DESIGN.md 5 C07')
+for p in list(NOT_APPLICABLE):
+    if p in CHECKS:
+        del NOT_APPLICABLE[p]
+for e in ENGINES:
+    e['serves_properties'] = sorted(CHECKS)
